@@ -271,6 +271,8 @@ def transitions(chk, prog):
                 exp['target_ttl'] = (r'Option::Some\(%s\)|self\.target_ttl' % TT) if lt else r'Option::None'
                 if lt:
                     unchanged.add('target_ttl')
+        if is_t == 0:
+            unchanged.add('target_found')      # found |= false
         row = 'awaited:is_target=%s,target_ttl=%s,lt=%s,max_recv=%s' % (is_t, tt, lt, mr)
         for fld, rx in exp.items():
             got = wd.get(fld, [])
